@@ -487,6 +487,67 @@ pub fn step_dddmp(s: &mut Mach, ins: &Instr, model: &mut Model, ctx: &mut RunCtx
         }
     }
 
+    // ---- C14/C15: a complement-edge ASCII file imported into plain BDD managers of every capacity:
+    // negated children go through the caller's complement function, which allocates
+    if KIND == Kind::Bcdd && crate::run::SWEEP_MODE.load(std::sync::atomic::Ordering::Relaxed) && opts.ascii && identity && !faulty && !ctx.io_corrupt && !ctx.failed() && s.cfg.oom_ok && backend_has_capacity() && n <= 8 {
+        use oxidd::{BooleanFunction as _, Function as _, Manager as _, ManagerRef as _};
+        type BF = oxidd::bdd::BDDFunction;
+        let used = s.mref.with_manager_shared(|m| m.num_inner_nodes()) as u32;
+        for cap in 0..=(2 * used + 4).min(99) {
+            ctx.stats.bump("probe.dddmp_cross_kind_capacity_point");
+            let other = oxidd::bdd::new_manager(cap as usize, 16, 1);
+            other.with_manager_exclusive(|m| {
+                m.add_vars(n);
+            });
+            let mut rd = FaultyReader { data: &file, pos: 0, plan: RPlan::Plain, calls: 0, fired: 0 };
+            let header = match dddmp::DumpHeader::load(&mut rd) {
+                Ok(h) => h,
+                Err(e) => {
+                    ctx.violate(&["C15"], "cross-kind-header", format!("{:?}: {}", ins, e));
+                    break;
+                }
+            };
+            let sv: Vec<u32> = header.support_var_order().to_vec();
+            let res = other.with_manager_shared(|m| dddmp::import::<BF>(&mut rd, &header, m, sv, |m, e| BF::not_edge_owned(m, e)));
+            match res {
+                Err(e) => {
+                    let msg = e.to_string().to_lowercase();
+                    if !msg.contains("out of memory") {
+                        ctx.violate(&["C14", "C15"], "cross-kind-error", format!("{:?}: import into a BDD manager of capacity {} failed with '{}', which is no out-of-memory report", ins, cap, e));
+                        break;
+                    }
+                    ctx.stats.bump("probe.dddmp_cross_kind_oom");
+                }
+                Ok(handles) => {
+                    for (i, (h, dexp)) in handles.iter().zip(&root_dens).enumerate() {
+                        let t = dexp.b();
+                        for a in 0..1u32 << n {
+                            if h.eval((0..n).map(|v| (v, a >> v & 1 == 1))) != t.get(a) {
+                                ctx.violate(&["C14", "C15"], "cross-kind-denotation", format!("{:?}: capacity {}: root {} imported into a BDD manager differs from {} at assignment {:b}", ins, cap, i, dexp.short(), a));
+                                break;
+                            }
+                        }
+                    }
+                    drop(handles);
+                }
+            }
+            let left = other.with_manager_shared(|m| {
+                m.gc();
+                m.num_inner_nodes()
+            });
+            drop(other);
+            // the manager's worker thread ends asynchronously: do not pile them up
+            std::thread::sleep(std::time::Duration::from_micros(400));
+            if left != 0 {
+                ctx.violate(&["C14", "C05"], "cross-kind-leak", format!("{:?}: after an import into a BDD manager of capacity {} and dropping everything, gc leaves {} inner nodes", ins, cap, left));
+                break;
+            }
+            if ctx.failed() {
+                break;
+            }
+        }
+    }
+
     // ---- stored-byte faults: every truncation point, seeded mutations ------------------
     if ctx.io_corrupt && !ctx.failed() {
         let before = s.mref.with_manager_shared(|m| m.num_inner_nodes());
